@@ -432,6 +432,21 @@ pub fn c05(args: &Args, reg: &[TypeEntry], log: &mut Log) {
                     "origin": file, "order": perm.iter().map(|&j| reg[group[j]].id.clone()).collect::<Vec<_>>(),
                     "before": super::fsutil::tree_json(&before), "after": super::fsutil::tree_json(&after)}));
             }
+            // the file deleted (a cleaned bindings directory), every type exported once more: the file is complete again
+            if pi % 3 == 0 {
+                let _ = std::fs::remove_file(&target);
+                for &j in perm.iter().rev() {
+                    let _ = guarded(|| (reg[group[j]].export)());
+                }
+                seq_evals += 1;
+                let again = snapshot(&root);
+                if again != before && !reported {
+                    seq_fails += 1;
+                    log.emit(json!({"ev": "fail", "monitor": "C05", "part": "sequential", "kind": "incomplete-after-deletion-and-re-export", "class": class,
+                        "origin": file, "order": perm.iter().rev().map(|&j| reg[group[j]].id.clone()).collect::<Vec<_>>(),
+                        "before": super::fsutil::tree_json(&before), "after": super::fsutil::tree_json(&again)}));
+                }
+            }
         }
     }
     log.emit(json!({"ev": "summary", "monitor": "C05", "part": "sequential", "histories": seq_hist, "evaluations": seq_evals, "fails": seq_fails}));
